@@ -1,1 +1,365 @@
-// harnesses for hexane/src/lib.rs
+// G-HEX-pack: hexane value packers (child module of the hexane crate root). C35, C39.
+// Included by /repo/rust/hexane/src/lib.rs under cfg(kani). Also holds helpers shared by the
+// other hx_*.rs files (reachable as crate::verif_kani::*).
+use super::*;
+use std::num::NonZeroU32;
+
+/// Over-approximating stub for alloc::fmt::format: error paths build messages nobody inspects.
+#[allow(dead_code)]
+pub(crate) fn stub_format(_args: std::fmt::Arguments<'_>) -> String {
+    String::new()
+}
+
+/// Hand-written UTF-8 validity oracle (Unicode 15 table 3-7: shortest form, no surrogates,
+/// <= U+10FFFF). Deliberately independent of std::str::from_utf8, which the code under test uses.
+#[allow(dead_code)]
+pub(crate) fn valid_utf8(b: &[u8]) -> bool {
+    let mut i = 0;
+    while i < b.len() {
+        let c = b[i];
+        if c < 0x80 {
+            i += 1;
+            continue;
+        }
+        let (n, lo, hi): (usize, u8, u8) = match c {
+            0xC2..=0xDF => (1, 0x80, 0xBF),
+            0xE0 => (2, 0xA0, 0xBF),
+            0xE1..=0xEC | 0xEE..=0xEF => (2, 0x80, 0xBF),
+            0xED => (2, 0x80, 0x9F),
+            0xF0 => (3, 0x90, 0xBF),
+            0xF1..=0xF3 => (3, 0x80, 0xBF),
+            0xF4 => (3, 0x80, 0x8F),
+            _ => return false,
+        };
+        if i + n >= b.len() {
+            return false;
+        }
+        if b[i + 1] < lo || b[i + 1] > hi {
+            return false;
+        }
+        if n >= 2 && b[i + 2] & 0xC0 != 0x80 {
+            return false;
+        }
+        if n >= 3 && b[i + 3] & 0xC0 != 0x80 {
+            return false;
+        }
+        i += n + 1;
+    }
+    true
+}
+
+/// Element-wise slice equality (slice == is a memcmp loop CBMC unrolls to the unwind bound).
+#[allow(dead_code)]
+pub(crate) fn same_bytes(a: &[u8], b: &[u8]) -> bool {
+    if a.len() != b.len() {
+        return false;
+    }
+    let mut i = 0;
+    while i < a.len() {
+        if a[i] != b[i] {
+            return false;
+        }
+        i += 1;
+    }
+    true
+}
+
+// ---------------------------------------------------------------------------------------------
+// scalar packers: try_unpack(pack(v)) = (bytes written, v), value_len = bytes written, unpack agrees
+
+macro_rules! scalar_roundtrip {
+    ($name:ident, $t:ty, $any:expr, $cover:expr) => {
+        #[kani::proof]
+        #[kani::unwind(12)]
+        fn $name() {
+            let v: $t = $any;
+            let mut out: Vec<u8> = Vec::new();
+            let wrote = <$t as RleValue>::pack::<Leb128>(v, &mut out);
+            assert!(wrote);
+            let n = out.len();
+            assert!(n >= 1 && n <= 10);
+            match <$t as RleValue>::try_unpack::<Leb128>(&out) {
+                Ok((used, back)) => {
+                    assert_eq!(used, n);
+                    assert!(back == v);
+                }
+                Err(e) => {
+                    std::mem::forget(e);
+                    panic!("a packed value must unpack");
+                }
+            }
+            let (used, back) = <$t as RleValue>::unpack::<Leb128>(&out);
+            assert_eq!(used, n);
+            assert!(back == v);
+            assert_eq!(<$t as RleValue>::value_len::<Leb128>(&out), Some(n));
+            assert!(!<$t as RleValue>::NULLABLE);
+            kani::cover!($cover(v));
+            kani::cover!(n == 1);
+            std::mem::forget(out);
+        }
+    };
+}
+scalar_roundtrip!(pack_roundtrip_u64, u64, kani::any(), |v: u64| v == u64::MAX);
+scalar_roundtrip!(pack_roundtrip_i64, i64, kani::any(), |v: i64| v == i64::MIN);
+scalar_roundtrip!(pack_roundtrip_u32, u32, kani::any(), |v: u32| v == u32::MAX);
+scalar_roundtrip!(pack_roundtrip_usize, usize, kani::any(), |v: usize| v == usize::MAX);
+scalar_roundtrip!(pack_roundtrip_nonzero_u32, NonZeroU32, kani::any(), |v: NonZeroU32| v.get() == u32::MAX);
+
+/// Option<u64>: Some packs like the bare value and unpacks to Some; None writes nothing and reports so.
+#[kani::proof]
+#[kani::unwind(12)]
+fn pack_roundtrip_option_u64() {
+    let v: Option<u64> = kani::any();
+    let mut out: Vec<u8> = Vec::new();
+    let wrote = <Option<u64> as RleValue>::pack::<Leb128>(v, &mut out);
+    assert_eq!(wrote, v.is_some());
+    assert_eq!(<Option<u64> as RleValue>::is_null(v), v.is_none());
+    assert!(<Option<u64> as RleValue>::NULLABLE);
+    assert!(<Option<u64> as RleValue>::get_null().is_none());
+    if let Some(x) = v {
+        match <Option<u64> as RleValue>::try_unpack::<Leb128>(&out) {
+            Ok((used, back)) => {
+                assert_eq!(used, out.len());
+                assert!(back == Some(x));
+            }
+            Err(e) => {
+                std::mem::forget(e);
+                panic!("a packed value must unpack");
+            }
+        }
+        let (used, back) = <Option<u64> as RleValue>::unpack::<Leb128>(&out);
+        assert!(used == out.len() && back == Some(x));
+        kani::cover!(x == u64::MAX);
+    } else {
+        assert!(out.is_empty());
+        kani::cover!(true);
+    }
+    std::mem::forget(out);
+}
+
+/// The narrowing packers reject what does not fit instead of truncating: on EVERY N-byte input
+/// u32 / NonZeroU32 / usize try_unpack succeed exactly when the u64 read succeeds and the value is
+/// in range, and then return that value.
+fn narrowing_total<const N: usize>() {
+    let b: [u8; N] = kani::any();
+    let wide = Leb128::read_unsigned(&b);
+    match <u32 as RleValue>::try_unpack::<Leb128>(&b) {
+        Ok((n, v)) => {
+            assert!(wide == Some((n, v as u64)));
+            kani::cover!(v == u32::MAX || N < 5);
+        }
+        Err(e) => {
+            assert!(match wide {
+                None => true,
+                Some((_, w)) => w > u32::MAX as u64,
+            });
+            kani::cover!(wide.is_some() || N < 5);
+            std::mem::forget(e);
+        }
+    }
+    match <NonZeroU32 as RleValue>::try_unpack::<Leb128>(&b) {
+        Ok((n, v)) => assert!(wide == Some((n, v.get() as u64))),
+        Err(e) => {
+            assert!(match wide {
+                None => true,
+                Some((_, w)) => w > u32::MAX as u64 || w == 0,
+            });
+            kani::cover!(wide.is_some());
+            std::mem::forget(e);
+        }
+    }
+    match <usize as RleValue>::try_unpack::<Leb128>(&b) {
+        Ok((n, v)) => assert!(wide == Some((n, v as u64))),
+        Err(e) => {
+            assert!(wide.is_none());
+            std::mem::forget(e);
+        }
+    }
+    match <i64 as RleValue>::try_unpack::<Leb128>(&b) {
+        Ok(x) => assert!(Leb128::read_signed(&b) == Some(x)),
+        Err(e) => {
+            assert!(Leb128::read_signed(&b).is_none());
+            std::mem::forget(e);
+        }
+    }
+}
+
+macro_rules! fixed_len_harness {
+    ($name:ident, $f:ident, $n:expr, $unwind:expr) => {
+        #[kani::proof]
+        #[kani::unwind($unwind)]
+        fn $name() {
+            $f::<$n>()
+        }
+    };
+}
+fixed_len_harness!(pack_narrowing_total_len1, narrowing_total, 1, 4);
+fixed_len_harness!(pack_narrowing_total_len2, narrowing_total, 2, 5);
+fixed_len_harness!(pack_narrowing_total_len5, narrowing_total, 5, 8);
+fixed_len_harness!(pack_narrowing_total_len6, narrowing_total, 6, 9);
+
+// ---------------------------------------------------------------------------------------------
+// byte-string packers
+
+/// Vec<u8>: pack/try_unpack/unpack/value_len round trip for every payload of N bytes.
+fn bytes_roundtrip<const N: usize>() {
+    let p: [u8; N] = kani::any();
+    let mut out: Vec<u8> = Vec::new();
+    assert!(<Vec<u8> as RleValue>::pack::<Leb128>(&p[..], &mut out));
+    assert_eq!(out.len(), N + 1);
+    assert_eq!(out[0] as usize, N);
+    match <Vec<u8> as RleValue>::try_unpack::<Leb128>(&out) {
+        Ok((used, back)) => {
+            assert_eq!(used, N + 1);
+            assert!(same_bytes(back, &p));
+        }
+        Err(e) => {
+            std::mem::forget(e);
+            panic!("packed bytes must unpack");
+        }
+    }
+    let (used, back) = <Vec<u8> as RleValue>::unpack::<Leb128>(&out);
+    assert_eq!(used, N + 1);
+    assert!(same_bytes(back, &p));
+    assert_eq!(<Vec<u8> as RleValue>::value_len::<Leb128>(&out), Some(N + 1));
+    kani::cover!(N == 0 || p[N - 1] == 0xff);
+    std::mem::forget(out);
+}
+fixed_len_harness!(pack_roundtrip_bytes_len0, bytes_roundtrip, 0, 4);
+fixed_len_harness!(pack_roundtrip_bytes_len1, bytes_roundtrip, 1, 5);
+fixed_len_harness!(pack_roundtrip_bytes_len3, bytes_roundtrip, 3, 7);
+
+/// Vec<u8>::try_unpack / value_len on EVERY N-byte input: never reads past the input, the value
+/// is exactly the declared number of bytes after the header, value_len agrees with try_unpack,
+/// String::value_len agrees too (it skips without validating).
+fn bytes_unpack_total<const N: usize>() {
+    let b: [u8; N] = kani::any();
+    let vl = <Vec<u8> as RleValue>::value_len::<Leb128>(&b);
+    assert_eq!(<String as RleValue>::value_len::<Leb128>(&b), vl);
+    match <Vec<u8> as RleValue>::try_unpack::<Leb128>(&b) {
+        Ok((used, v)) => {
+            assert!(used <= N);
+            assert_eq!(vl, Some(used));
+            match Leb128::read_unsigned(&b) {
+                Some((hdr, len)) => {
+                    assert_eq!(v.len() as u64, len);
+                    assert_eq!(used, hdr + v.len());
+                    assert!(same_bytes(v, &b[hdr..used]));
+                }
+                None => panic!("accepted without a length header"),
+            }
+            // the unchecked path agrees on accepted input
+            let (u2, v2) = <Vec<u8> as RleValue>::unpack::<Leb128>(&b);
+            assert!(u2 == used && same_bytes(v, v2));
+            kani::cover!(v.len() == N - 1);
+            kani::cover!(v.is_empty());
+        }
+        Err(e) => {
+            assert!(vl.is_none());
+            kani::cover!(true);
+            std::mem::forget(e);
+        }
+    }
+}
+fixed_len_harness!(pack_bytes_unpack_total_len1, bytes_unpack_total, 1, 4);
+fixed_len_harness!(pack_bytes_unpack_total_len2, bytes_unpack_total, 2, 5);
+fixed_len_harness!(pack_bytes_unpack_total_len3, bytes_unpack_total, 3, 6);
+fixed_len_harness!(pack_bytes_unpack_total_len4, bytes_unpack_total, 4, 7);
+fixed_len_harness!(pack_bytes_unpack_total_len5, bytes_unpack_total, 5, 8);
+
+// ---------------------------------------------------------------------------------------------
+// strings (C39)
+
+/// String round trip for a symbolic char (1..=4 UTF-8 bytes: every scalar value).
+#[kani::proof]
+#[kani::unwind(8)]
+fn pack_roundtrip_string_char() {
+    let c: char = kani::any();
+    let mut tmp = [0u8; 4];
+    let s: &str = c.encode_utf8(&mut tmp);
+    let n = s.len();
+    let mut out: Vec<u8> = Vec::new();
+    assert!(<String as RleValue>::pack::<Leb128>(s, &mut out));
+    assert_eq!(out.len(), n + 1);
+    assert_eq!(out[0] as usize, n);
+    assert!(valid_utf8(&out[1..]));
+    let (used, back) = <String as RleValue>::unpack::<Leb128>(&out);
+    assert_eq!(used, n + 1);
+    assert!(same_bytes(back.as_bytes(), s.as_bytes()));
+    assert_eq!(<String as RleValue>::value_len::<Leb128>(&out), Some(n + 1));
+    kani::cover!(n == 1);
+    kani::cover!(n == 4);
+    std::mem::forget(out);
+}
+
+/// String round trip through the CHECKED decoder for ASCII payloads of N bytes.
+fn string_roundtrip_ascii<const N: usize>() {
+    let p: [u8; N] = kani::any();
+    let mut i = 0;
+    while i < N {
+        kani::assume(p[i] < 0x80);
+        i += 1;
+    }
+    let s = unsafe { std::str::from_utf8_unchecked(&p) };
+    let mut out: Vec<u8> = Vec::new();
+    assert!(<String as RleValue>::pack::<Leb128>(s, &mut out));
+    assert_eq!(out.len(), N + 1);
+    match <String as RleValue>::try_unpack::<Leb128>(&out) {
+        Ok((used, back)) => {
+            assert_eq!(used, N + 1);
+            assert!(same_bytes(back.as_bytes(), &p));
+        }
+        Err(e) => {
+            std::mem::forget(e);
+            panic!("a packed string must unpack");
+        }
+    }
+    kani::cover!(N == 0 || p[N - 1] == b'z');
+    std::mem::forget(out);
+}
+fixed_len_harness!(pack_roundtrip_string_ascii_len0, string_roundtrip_ascii, 0, 4);
+fixed_len_harness!(pack_roundtrip_string_ascii_len1, string_roundtrip_ascii, 1, 5);
+fixed_len_harness!(pack_roundtrip_string_ascii_len2, string_roundtrip_ascii, 2, 6);
+fixed_len_harness!(pack_roundtrip_string_ascii_len3, string_roundtrip_ascii, 3, 7);
+
+/// C39 core. On EVERY N-byte input, String::try_unpack
+///  - never panics and never reads past the input,
+///  - returns Ok exactly when the length header is readable, the declared bytes are present and
+///    they are valid UTF-8 by the independent oracle (so: Ok => valid UTF-8, and nothing valid is lost),
+///  - and then the unchecked String::unpack (from_utf8_unchecked) returns the same bytes.
+fn string_unpack_total<const N: usize>() {
+    let b: [u8; N] = kani::any();
+    let expect: Option<(usize, usize)> = match Leb128::read_unsigned(&b) {
+        Some((hdr, len)) if len <= (N - hdr) as u64 => Some((hdr, hdr + len as usize)),
+        _ => None,
+    };
+    match <String as RleValue>::try_unpack::<Leb128>(&b) {
+        Ok((used, s)) => {
+            let (hdr, end) = match expect {
+                Some(x) => x,
+                None => panic!("accepted a truncated or headerless string"),
+            };
+            assert_eq!(used, end);
+            assert!(same_bytes(s.as_bytes(), &b[hdr..end]));
+            assert!(valid_utf8(s.as_bytes()));
+            let (u2, s2) = <String as RleValue>::unpack::<Leb128>(&b);
+            assert_eq!(u2, used);
+            assert!(same_bytes(s2.as_bytes(), s.as_bytes()));
+            kani::cover!(s.len() == N - 1);
+            kani::cover!(N < 3 || (s.len() == N - 1 && b[1] >= 0x80));
+            kani::cover!(s.is_empty());
+        }
+        Err(e) => {
+            if let Some((hdr, end)) = expect {
+                assert!(!valid_utf8(&b[hdr..end]));
+            }
+            kani::cover!(N < 2 || expect.is_some());
+            std::mem::forget(e);
+        }
+    }
+}
+fixed_len_harness!(pack_string_unpack_total_len1, string_unpack_total, 1, 4);
+fixed_len_harness!(pack_string_unpack_total_len2, string_unpack_total, 2, 5);
+fixed_len_harness!(pack_string_unpack_total_len3, string_unpack_total, 3, 6);
+fixed_len_harness!(pack_string_unpack_total_len4, string_unpack_total, 4, 7);
+fixed_len_harness!(pack_string_unpack_total_len5, string_unpack_total, 5, 8);
